@@ -224,6 +224,15 @@ Proof.
     + apply (dec_div_correct p (- x)). lia.
 Qed.
 
+(** the same statement with the format written as in IEEE terms, [emin = 3 - emax - prec] *)
+Corollary dec_to_f64_correct_emin : forall n x : Z, (0 < n)%Z ->
+  let r := dec_real n x in
+  if Rlt_bool (Rabs (round radix2 (FLT_exp (3 - 1024 - 53) 53) ZnearestE r)) (bpow radix2 1024)
+  then B2R (dec_to_f64 n x) = round radix2 (FLT_exp (3 - 1024 - 53) 53) ZnearestE r /\
+       is_finite (dec_to_f64 n x) = true
+  else dec_to_f64 n x = B754_infinity false.
+Proof. intros n x Hn. exact (dec_to_f64_correct n x ltac:(lia)). Qed.
+
 (** The same in propositional form. *)
 Corollary dec_to_f64_finite : forall n x : Z, (0 <= n)%Z ->
   Rabs (rnd64 (dec_real n x)) < bmax ->
@@ -668,3 +677,137 @@ Proof.
     pose proof (Zceil_floor_neq x Hne) as Hce.
     rewrite Hce, plus_IZR in Hh. rewrite Rabs_left1 in Hh by lra. lra.
 Qed.
+
+(* ------------------------------------------------------------------ *)
+(** * The overflow threshold
+
+    "The rounded value reaches 2^1024" is a condition on the exact value: it holds
+    exactly from the midpoint between the largest double and 2^1024 on, that is from
+    2^1024 - 2^970 (the midpoint itself rounds to the even neighbour, 2^1024). *)
+
+Definition ovf_thr : Z := (2 ^ 54 - 1) * 2 ^ 970.
+
+Lemma ovf_thr_eq : ovf_thr = (2 ^ 1024 - 2 ^ 970)%Z.
+Proof. reflexivity. Qed.
+
+Lemma mag_max_f64 : mag radix2 (IZR max_f64_Z) = 1024%Z :> Z.
+Proof.
+  apply mag_unique. rewrite <- abs_IZR. rewrite <- !(IZR_Zpower radix2) by lia.
+  split; [apply IZR_le|apply IZR_lt]; vm_compute; [discriminate|reflexivity].
+Qed.
+
+Lemma mag_ovf_thr : mag radix2 (IZR ovf_thr) = 1024%Z :> Z.
+Proof.
+  apply mag_unique. rewrite <- abs_IZR. rewrite <- !(IZR_Zpower radix2) by lia.
+  split; [apply IZR_le|apply IZR_lt]; vm_compute; [discriminate|reflexivity].
+Qed.
+
+Lemma max_f64_pos : 0 < IZR max_f64_Z.
+Proof. apply IZR_lt. reflexivity. Qed.
+
+Lemma succ_max_f64 : succ radix2 fexp64 (IZR max_f64_Z) = bmax.
+Proof.
+  rewrite succ_eq_pos by (apply Rlt_le, max_f64_pos).
+  rewrite ulp_neq_0 by (apply Rgt_not_eq, max_f64_pos).
+  unfold cexp. rewrite mag_max_f64. change (fexp64 1024) with 971%Z.
+  rewrite <- !(IZR_Zpower radix2) by lia. rewrite <- plus_IZR.
+  f_equal.
+Qed.
+
+Lemma midpoint_eq : (IZR max_f64_Z + bmax) / 2 = IZR ovf_thr.
+Proof.
+  rewrite <- (IZR_Zpower radix2 1024) by lia. rewrite <- plus_IZR.
+  replace (max_f64_Z + radix2 ^ 1024)%Z with (2 * ovf_thr)%Z by reflexivity.
+  rewrite mult_IZR. field.
+Qed.
+
+(** below the threshold the rounding stays finite ... *)
+Lemma rnd64_below_thr : forall r, Rabs r < IZR ovf_thr -> Rabs (rnd64 r) < bmax.
+Proof.
+  intros r Hr. rewrite <- round_NE_abs by typeclasses eauto.
+  apply Rle_lt_trans with (IZR max_f64_Z); [|apply max_f64_lt].
+  apply round_N_le_midp; [typeclasses eauto|apply max_f64_format|].
+  rewrite succ_max_f64, midpoint_eq. exact Hr.
+Qed.
+
+(** ... the threshold itself is a tie and goes to the even neighbour 2^1024 ... *)
+Lemma rnd64_thr : rnd64 (IZR ovf_thr) = bmax.
+Proof.
+  unfold round, scaled_mantissa, cexp. rewrite mag_ovf_thr.
+  change (fexp64 1024) with 971%Z.
+  assert (Es : IZR ovf_thr * bpow radix2 (- (971)) = IZR (2 ^ 53 - 1) + / 2).
+  { unfold ovf_thr. rewrite mult_IZR.
+    replace (- (971))%Z with (- (970) + - (1))%Z by reflexivity.
+    rewrite bpow_plus. rewrite (bpow_neg_IZR (- (970))) by lia.
+    change (- - (970))%Z with 970%Z.
+    change (bpow radix2 (- (1))) with (/ 2).
+    replace (2 ^ 54 - 1)%Z with (2 * (2 ^ 53 - 1) + 1)%Z by reflexivity.
+    rewrite plus_IZR, mult_IZR.
+    assert (HP : IZR (2 ^ 970) <> 0).
+    { apply not_0_IZR. pose proof (pow2_pos 970 ltac:(lia)). lia. }
+    set (P := IZR (2 ^ 970)) in *. set (K := IZR (2 ^ 53 - 1)). field. exact HP. }
+  rewrite Es.
+  assert (Ef : Zfloor (IZR (2 ^ 53 - 1) + / 2) = (2 ^ 53 - 1)%Z).
+  { apply Zfloor_imp. rewrite plus_IZR. lra. }
+  assert (Ec : Zceil (IZR (2 ^ 53 - 1) + / 2) = (2 ^ 53)%Z).
+  { rewrite Zceil_floor_neq; [rewrite Ef; reflexivity|]. rewrite Ef. lra. }
+  unfold Znearest. rewrite Ef, Ec.
+  rewrite Rcompare_Eq by ring.
+  change (negb (Z.even (2 ^ 53 - 1))) with true. cbv iota.
+  unfold F2R. cbn [Fnum Fexp].
+  rewrite <- !(IZR_Zpower radix2) by lia. rewrite <- mult_IZR. f_equal.
+Qed.
+
+(** ... and from the threshold on the rounding reaches 2^1024. *)
+Lemma rnd64_above_thr : forall r, IZR ovf_thr <= Rabs r -> bmax <= Rabs (rnd64 r).
+Proof.
+  intros r Hr. rewrite <- round_NE_abs by typeclasses eauto.
+  rewrite <- rnd64_thr. apply round_le; [typeclasses eauto|typeclasses eauto|exact Hr].
+Qed.
+
+Theorem rnd64_overflow_iff : forall r, bmax <= Rabs (rnd64 r) <-> IZR ovf_thr <= Rabs r.
+Proof.
+  intros r. split.
+  - intros H. destruct (Rle_or_lt (IZR ovf_thr) (Rabs r)) as [Hc|Hc]; [exact Hc|].
+    apply rnd64_below_thr in Hc. lra.
+  - apply rnd64_above_thr.
+Qed.
+
+(** float64(z): exact characterisation of when the conversion is finite *)
+Theorem f_of_Z_correct_sharp : forall z : Z, (Z.abs z < 2 ^ 1024 - 2 ^ 970)%Z ->
+  B2R (f_of_Z z) = rnd64 (IZR z) /\ is_finite (f_of_Z z) = true.
+Proof.
+  intros z Hz. pose proof (f_of_Z_correct_gen z) as H.
+  rewrite Rlt_bool_true in H.
+  - destruct H as (H1 & H2 & _). split; assumption.
+  - apply rnd64_below_thr. rewrite <- abs_IZR. apply IZR_lt. rewrite ovf_thr_eq. exact Hz.
+Qed.
+
+Theorem f_of_Z_overflow : forall z : Z, (2 ^ 1024 - 2 ^ 970 <= Z.abs z)%Z ->
+  f_of_Z z = B754_infinity (z <? 0)%Z.
+Proof.
+  intros z Hz. pose proof (f_of_Z_correct_gen z) as H.
+  rewrite Rlt_bool_false in H; [exact H|].
+  apply rnd64_above_thr. rewrite <- abs_IZR. apply IZR_le. rewrite ovf_thr_eq. exact Hz.
+Qed.
+
+(** a literal is out of range exactly when its exact value is at least 2^1024 - 2^970 *)
+Theorem literal_value_none_iff : forall ip fp,
+  literal_value ip fp = None <-> IZR ovf_thr <= literal_real ip fp.
+Proof.
+  intros ip fp. rewrite literal_value_none, rnd64_overflow_iff.
+  assert (H0 : 0 <= literal_real ip fp).
+  { unfold literal_real. apply Rmult_le_pos.
+    - apply IZR_le. apply digits_val_nonneg.
+    - apply Rlt_le, Rinv_0_lt_compat, IZR_lt. apply Z.pow_pos_nonneg; lia. }
+  rewrite Rabs_pos_eq by exact H0. tauto.
+Qed.
+
+Print Assumptions dec_to_f64_correct.
+Print Assumptions literal_value_spec.
+Print Assumptions literal_value_none_iff.
+Print Assumptions literal_value_script_invariance.
+Print Assumptions to_int64_spec.
+Print Assumptions f_of_Z_correct_sharp.
+Print Assumptions f_add_correct.
+Print Assumptions f_round_correct.
